@@ -83,6 +83,8 @@ fn prop(id: &str) -> Prop {
         "C04" => Prop { gen: c04::gen, run: c04::run },
         "C08" => Prop { gen: c08::gen, run: c08::run },
         "C17" => Prop { gen: c17::gen, run: c17::run },
+        "C09" => Prop { gen: c09::gen, run: c09::run },
+        "C11" => Prop { gen: c09::gen_c11, run: c09::run },
         "C10" => Prop { gen: c10::gen, run: c10::run },
         "C18" => Prop { gen: c18::gen, run: c18::run },
         "C12" => Prop { gen: c12::gen, run: c12::run },
